@@ -53,10 +53,6 @@ def rank (R : Node K V) : PC K V → Nat
   | .retn x => wtAt R x - 2 * lenAt R x - 1
   | .leaf x _ => wtAt R x - 2 * lenAt R x - 2
   | .child x _ => wtAt R x - 2 * lenAt R x - 3
-  | .lostGen _ _ => 4
-  | .lostN _ _ => 3
-  | .lostKey _ _ => 2
-  | .itVal _ _ => 1
   | _ => 0
 
 theorem rank_notFoundAt {R : Node K V} (op : Op K V) (x idx : Nat) :
@@ -67,13 +63,13 @@ theorem rank_notFoundAt {R : Node K V} (op : Op K V) (x idx : Nat) :
 theorem rank_foundAt {R : Node K V} (op : Op K V) (hsr : op.isSearch = true) (x idx : Nat) :
     rank R (foundAt op x idx) ≤ 1 := by
   cases op with
-  | iter x i g ck => simp [Op.isSearch] at hsr
+  | scan fwd sk skey stop limit => simp [Op.isSearch] at hsr
   | get k => rw [foundAt_get]; simp [rank]
   | put k v => rw [foundAt_put]; simp [rank]
   | contains k => rw [foundAt_contains]; simp [rank]
 
-/-- every step of a goroutine in a `Good` state decreases its rank -/
-theorem rank_next {t : Tree K V} (hn : (ids t.root).Nodup) {op : Op K V} {m : Mem K V}
+/-- every step of a `Put` / `Get` / `Contains` goroutine in a `Good` state decreases its rank -/
+theorem rank_next {t : Tree K V} (hn : (ids t.root).Nodup) {op : Op K V} (hsr : op.isSearch = true) {m : Mem K V}
     (hf : Frozen m t) {pc : PC K V} (hg : Good cmp t op pc) (hnd : pc.isDone = false) :
     rank t.root (next cmp op m pc).2 < rank t.root pc := by
   have hat : ∀ y, Sub t.root y → wtAt t.root y.id = wt y ∧ lenAt t.root y.id = y.kvs.length := by
@@ -158,10 +154,7 @@ theorem rank_next {t : Tree K V} (hn : (ids t.root).Nodup) {op : Op K V} {m : Me
         obtain ⟨id, kvs, kids⟩ := y; exact wt_kid hcm
       simp only [next, hC, rank, hw, hl, hwc]
       omega
-  | lostGen x i => simp only [next]; split <;> (try split) <;> simp [rank]
-  | lostN x i => simp only [next]; split <;> simp [rank]
-  | lostKey x i => simp only [next]; split <;> (try split) <;> simp [rank]
-  | itVal x i => simp [next, rank]
+  | it ph st => obtain ⟨h, _⟩ := hg; rw [hsr] at h; cases h
 
 /-! ## the whole configuration -/
 
@@ -186,8 +179,54 @@ theorem sum_set_lt {α : Type} (f : α → Nat) : ∀ (l : List α) (j : Nat) (a
       simp only [List.set_cons_succ, List.map_cons, List.sum_cons]
       omega
 
+theorem sum_set_eq {α : Type} (f : α → Nat) : ∀ (l : List α) (j : Nat) (a b : α), l[j]? = some a → f b = f a →
+    ((l.set j b).map f).sum = (l.map f).sum := by
+  intro l
+  induction l with
+  | nil => intro j a b h; cases h
+  | cons x xs ih =>
+    intro j a b h heq
+    cases j with
+    | zero =>
+      simp only [List.getElem?_cons_zero, Option.some.injEq] at h
+      subst h
+      simp only [List.set_cons_zero, List.map_cons, List.sum_cons, heq]
+    | succ j =>
+      simp only [List.getElem?_cons_succ] at h
+      have := ih j a b h heq
+      simp only [List.set_cons_succ, List.map_cons, List.sum_cons, this]
+
+/-- a range reader is at one of its own program points, of rank 0 -/
+theorem rank_scan {t : Tree K V} {op : Op K V} (hns : op.isSearch = false) {pc : PC K V} (hg : Good cmp t op pc) :
+    rank t.root pc = 0 := by
+  cases pc with
+  | run ops cont rg r =>
+    rcases hg with ⟨hsr, _, _⟩ | ⟨x, _, _, _, ⟨k, rfl, _⟩ | ⟨k, v, rfl, _, _⟩⟩
+    · rw [hns] at hsr; cases hsr
+    · cases hns
+    · cases hns
+  | test x i => obtain ⟨hsr, _⟩ := hg; rw [hns] at hsr; cases hsr
+  | key x i => obtain ⟨hsr, _⟩ := hg; rw [hns] at hsr; cases hsr
+  | retn x => obtain ⟨hsr, _⟩ := hg; rw [hns] at hsr; cases hsr
+  | leaf x idx => obtain ⟨hp, _⟩ := hg; rw [Op.isPut_of_not_search hns] at hp; cases hp
+  | child x idx => obtain ⟨hsr, _⟩ := hg; rw [hns] at hsr; cases hsr
+  | full x => exact hg.elim
+  | itest x j => exact hg.elim
+  | ikey x j => exact hg.elim
+  | it ph st => rfl
+  | done r => rfl
+
+/-- whether goroutine `i` executes a `Put` / `Get` / `Contains` (a range reader otherwise) -/
+def isSearchAt (ops : List (Op K V)) (i : Nat) : Bool :=
+  match ops[i]? with
+  | some op => op.isSearch
+  | none => false
+
+/-- a step of a `Put` / `Get` / `Contains` goroutine decreases the total rank; a step of a range reader leaves it -/
 theorem total_step {t : Tree K V} {ops : List (Op K V)} (hs : Setup cmp t ops) {c c' : Config K V} {j0 : Nat}
-    (hi : CInv cmp t ops c) (hstep : stepAt cmp ops c j0 = some c') : total t.root c' < total t.root c := by
+    (hi : CInv cmp t ops c) (hstep : stepAt cmp ops c j0 = some c') :
+    total t.root c' + (if isSearchAt ops j0 then 1 else 0) ≤ total t.root c := by
+  have hi' := cinv_step hs hi hstep
   unfold stepAt at hstep
   cases hop : ops[j0]? with
   | none => simp [hop] at hstep
@@ -201,17 +240,35 @@ theorem total_step {t : Tree K V} {ops : List (Op K V)} (hs : Setup cmp t ops) {
   have hnd : pc.isDone = false := by simpa using hdone
   simp only [hnd, Bool.false_eq_true, if_false, Option.some.injEq] at hstep
   subst hstep
-  exact sum_set_lt (rank t.root) c.pcs j0 pc _ hpc
-    (rank_next hs.nodup hi.frozen (hi.good j0 op pc hop hpc) hnd)
+  have hj0 : j0 < c.pcs.length := (List.getElem?_eq_some_iff.mp hpc).1
+  cases hsr : op.isSearch with
+  | true =>
+    have := sum_set_lt (rank t.root) c.pcs j0 pc _ hpc
+      (rank_next hs.nodup hsr hi.frozen (hi.good j0 op pc hop hpc) hnd)
+    simp only [isSearchAt, hop, hsr, if_true]
+    unfold total
+    simp only at this ⊢
+    omega
+  | false =>
+    have h0 := rank_scan hsr (hi.good j0 op pc hop hpc)
+    have h1 := rank_scan hsr (hi'.good j0 op _ hop (List.getElem?_set_self hj0))
+    have := sum_set_eq (rank t.root) c.pcs j0 pc (next cmp op c.mem pc).2 hpc (by rw [h0]; exact h1)
+    simp only [isSearchAt, hop, hsr, Bool.false_eq_true, if_false]
+    unfold total
+    simp only at this ⊢
+    omega
 
-/-- a schedule that can be executed from a configuration satisfying the invariant is no longer than
-that configuration's total rank -/
+/-- the number of steps of a schedule that are steps of `Put` / `Get` / `Contains` goroutines -/
+def searchSteps (ops : List (Op K V)) (sched : List Nat) : Nat := (sched.filter (isSearchAt ops)).length
+
+/-- in a schedule that can be executed from a configuration satisfying the invariant, the `Put` / `Get` / `Contains`
+goroutines together take no more steps than that configuration's total rank -/
 theorem sched_bound {t : Tree K V} {ops : List (Op K V)} (hs : Setup cmp t ops) :
     ∀ (sched : List Nat) (c0 c : Config K V), CInv cmp t ops c0 → runSched cmp ops c0 sched = some c →
-      sched.length + total t.root c ≤ total t.root c0 ∧ CInv cmp t ops c := by
+      searchSteps ops sched + total t.root c ≤ total t.root c0 ∧ CInv cmp t ops c := by
   intro sched
   induction sched with
-  | nil => intro c0 c hi h; simp only [runSched, Option.some.injEq] at h; subst h; exact ⟨by simp, hi⟩
+  | nil => intro c0 c hi h; simp only [runSched, Option.some.injEq] at h; subst h; exact ⟨by simp [searchSteps], hi⟩
   | cons i is ih =>
     intro c0 c hi h
     simp only [runSched] at h
@@ -221,7 +278,9 @@ theorem sched_bound {t : Tree K V} {ops : List (Op K V)} (hs : Setup cmp t ops) 
       rw [hst] at h
       have hlt := total_step hs hi hst
       obtain ⟨hb, hc⟩ := ih c1 c (cinv_step hs hi hst) h
-      exact ⟨by simp only [List.length_cons]; omega, hc⟩
+      refine ⟨?_, hc⟩
+      simp only [searchSteps, List.filter_cons] at hb ⊢
+      split <;> simp_all <;> omega
 
 theorem total_initial (t : Tree K V) (ops : List (Op K V)) (m : Mem K V) :
     total t.root (initial m ops) ≤ ops.length * (wt t.root + 4) := by
@@ -233,7 +292,7 @@ theorem total_initial (t : Tree K V) (ops : List (Op K V)) (m : Mem K V) :
     simp only [List.map_cons, List.sum_cons, List.length_cons, Function.comp]
     have : rank t.root (start op) ≤ wt t.root + 4 := by
       cases op with
-      | iter x i g ck => rw [start_iter]; simp [rank]
+      | scan fwd sk skey stop limit => rw [start_scan]; simp [rank]
       | get k => rw [start_search _ rfl]; simp [rank]
       | contains k => rw [start_search _ rfl]; simp [rank]
       | put k v => rw [start_search _ rfl]; simp [rank]
